@@ -123,7 +123,9 @@ def matchfile_from_alignment(
         raise ValueError("Version should >= 1.0.0")
 
     if not assume_part_unfolded:
-        # unfold score according to alignment
+        # unfold score according to alignment (the score ids in the alignment
+        # are adapted to the unfolded part: work on a copy of the caller's list)
+        alignment = [dict(al) for al in alignment]
         spart = score.unfold_part_alignment(spart, alignment)
 
     # Info Header Lines
